@@ -47,7 +47,7 @@ def build(tier, seed):
             for (order, spelling, naming) in variants:
                 d = D.make_decl(r, label, vals, order, spelling, naming, rnd,
                                 vis=['pub', 'pub(crate)', '', 'pub(super)'][k % 4])
-                ncfg = (3 if n <= 50 else 2) if tier == 'quick' else (9 if n <= 50 else 3)
+                ncfg = (3 if n <= 50 else 2) if tier == 'quick' else (5 if n <= 50 else 2)
                 for j in range(ncfg):
                     a, f, t, it, wr = rot[(k * 5 + j * 7) % len(rot)]
                     if n > 300 and it == 'table_inline':
